@@ -32,6 +32,10 @@ pub struct RelCase {
     pub rounds: u8,
     pub prefix: Vec<POp>,
     pub rel: Rel,
+    /// if set: after the prefix the pool of both twins is preset (hook) such that the next
+    /// collection returns exactly this structured value
+    #[serde(default)]
+    pub next_result: Option<u64>,
 }
 
 #[derive(Clone, Debug, PartialEq, Eq, Serialize, Deserialize)]
@@ -109,6 +113,14 @@ pub fn check_rel(c: &RelCase) -> CheckResult {
         }
     }
     let ra0 = reads(&mut *a);
+    let mut targeted = false;
+    if let Some(want) = c.next_result {
+        if let Some(p0) = crate::refmodel::jitter::pool_for_result(&c.prog.script(), ra0, c.rounds as u32, want, BUDGET) {
+            if a.jitter().unwrap().set_pool(p0) && b.jitter().unwrap().set_pool(p0) {
+                targeted = true;
+            }
+        }
+    }
     match &c.rel {
         Rel::R1 => {
             let lo = a.next_u32();
@@ -180,6 +192,7 @@ pub fn check_rel(c: &RelCase) -> CheckResult {
             Rel::R2 { .. } => "R2",
             Rel::R3 => "R3",
         })
+        .class_if(targeted, "next-result-targeted")
         .class_if(pending_before, "prefix-left-half-pending")
         .class_if(c.rounds >= 64, "rounds>=64")
         .class_if(c.prog.hostile(), "hostile-deltas"))
@@ -305,8 +318,8 @@ pub fn def(ctx: &Ctx) -> PropDef {
             t.pick(1500, 150_000),
             move || {
                 let rel = prop_oneof![3 => Just(Rel::R1), 3 => proptest::option::of(5usize..=40).prop_map(|x_fill| Rel::R2 { x_fill }), 3 => Just(Rel::R3)];
-                (gens::timer_prog(true, 10), rounds(), proptest::collection::vec(pop(), 0..=5), rel)
-                    .prop_map(|(prog, rounds, prefix, rel)| RelCase { prog, rounds, prefix, rel })
+                (gens::timer_prog(true, 10), rounds(), proptest::collection::vec(pop(), 0..=5), rel, proptest::option::weighted(0.3, crate::props::c12::structured_value()))
+                    .prop_map(|(prog, rounds, prefix, rel, next_result)| RelCase { prog, rounds, prefix, rel, next_result })
                     .boxed()
             },
             check_rel,
@@ -333,7 +346,7 @@ pub fn def(ctx: &Ctx) -> PropDef {
     }
     PropDef {
         id: "C16",
-        rule: "cases = timer delta program (incl. hostile deltas) x rounds 1..=255 x (a) twin relations after a generated prefix: R1 u32;u32 == (low, high) of u64 with zero reads in the second call and equal totals; R2 the call after a pending half (next_u64 or fill(n>=5)) returns what it returns after next_u64 in place of the u32, reading >= rounds; R3 the first next_u32 of a clone taken while a half is pending is the low half of a fresh collection (>= rounds reads) and the original still serves its own half; (b) R4: histories of next_u32/next_u64/fill_bytes/clone/switch over up to 6 instances sharing one timer, with model-free bookkeeping: a call that needs no collection reads the timer zero times, every needed collection reads it >= rounds times. fill(n) follows the composition rule (a tail of 1..4 bytes is a next_u32). Non-trivial = every relation case; a history with a pending half followed by another op or a clone taken while a half is pending; distinct by hash of the case.".into(),
+        rule: "cases = timer delta program (incl. hostile deltas) x rounds 1..=255 x (a) twin relations after a generated prefix, optionally with the pool preset (hook) so that the next collected value is structured (0, a zero half, all ones, single bit): R1 u32;u32 == (low, high) of u64 with zero reads in the second call and equal totals; R2 the call after a pending half (next_u64 or fill(n>=5)) returns what it returns after next_u64 in place of the u32, reading >= rounds; R3 the first next_u32 of a clone taken while a half is pending is the low half of a fresh collection (>= rounds reads) and the original still serves its own half; (b) R4: histories of next_u32/next_u64/fill_bytes/clone/switch over up to 6 instances sharing one timer, with model-free bookkeeping: a call that needs no collection reads the timer zero times, every needed collection reads it >= rounds times. fill(n) follows the composition rule (a tail of 1..4 bytes is a next_u32). Non-trivial = every relation case; a history with a pending half followed by another op or a clone taken while a half is pending; distinct by hash of the case.".into(),
         explanation: None,
         assumptions: vec!["fill_bytes(n <= 4) directly after next_u32 takes the pending half (the statement's composition rule and the crate's documented intent); it is not flagged".into()],
         subs,
